@@ -322,7 +322,7 @@ impl ParserListener for Screen {
     ///A list of screen lines as unicode strings.
     fn display(&mut self) -> Vec<String> {
         let default_char = self.default_char();
-        let render = |line: &mut HashMap<u32, CharOpts>| -> String {
+        let render = |line: &HashMap<u32, CharOpts>| -> String {
             let mut result = String::new();
             let mut is_wide_char = false;
             for x in 0..self.columns {
@@ -330,7 +330,7 @@ impl ParserListener for Screen {
                     is_wide_char = false;
                     continue;
                 }
-                let char = line.entry(x).or_insert(default_char.clone()).data.clone();
+                let char = line.get(&x).unwrap_or(&default_char).data.clone();
                 // An orphaned placeholder (its wide lead was overwritten) is empty.
                 is_wide_char = char
                     .chars()
@@ -342,14 +342,12 @@ impl ParserListener for Screen {
             return result;
         };
 
+        // Rendering must not materialise absent rows or cells: later
+        // operations treat absent and written cells differently.
+        let empty_line = HashMap::<u32, CharOpts>::new();
         let mut result = Vec::new();
         for y in 0..self.lines {
-            let line_render = render(
-                &mut self
-                    .buffer
-                    .entry(y)
-                    .or_insert(HashMap::<u32, CharOpts>::new()),
-            );
+            let line_render = render(self.buffer.get(&y).unwrap_or(&empty_line));
             result.push(line_render);
         }
 
